@@ -41,9 +41,8 @@ Theorem C18_growth_doubles :
       slow_policy k b l (Some data :: rest) = ([(d_size d, d_align d)], PChunk d data) /\
       2 * (cur_layout_size k b - k_footer k) <= d_nswf d /\ k_default k <= d_nswf d /\ l_size l <= d_nswf d.
 Proof. exact first_candidate_doubles. Qed.
-(* The logarithmic request count and the constant-factor bound on held memory are
-   corollaries not yet stated; the Vec/String part is in Props/C18 of the
-   collections model (RawVec). *)
+(* (the whole-history statements — doubling chain, logarithmic chunk count, held memory at most
+   twice the newest chunk — are at the end of this file) *)
 
 Example C18_witness :
   let k := mkCfg 48 16 64 448 4096 1 1000 in
@@ -97,3 +96,58 @@ Proof. intros e v c extra exact v' R H. destruct (reserve_spec e v c extra exact
 Print Assumptions C18_vec_reserve_doubles.
 Print Assumptions C18_vec_reallocations_logarithmic.
 Print Assumptions C18_vec_reserved_capacity.
+
+(* ---- whole histories (ArenaGrowth.v) ---- *)
+From BV Require Import ArenaGrowth.
+Close Scope string_scope.
+
+(* with no limit in force, below 2^59 bytes, against an allocator that grants what it is asked
+   first, the crate's policy obtains its first candidate or nothing: never a smaller chunk *)
+Theorem C18_policy_first_candidate_or_nothing : forall k answers b,
+  small_consts k -> limit b = None -> cur_layout_size k b - k_footer k < 576460752303423488 ->
+  granted answers -> acq_at (policy k answers) b (grows k).
+Proof. exact policy_grows. Qed.
+
+Theorem C18_new_chunk_bounded : forall k answers b l g data reqs,
+  small_consts k -> limit b = None -> cur_layout_size k b - k_footer k < 576460752303423488 ->
+  granted answers -> policy k answers b (ForLayout l) = (AcqSome g data, reqs) ->
+  let al := N.max (N.max (k_calign k) (k_malign k)) (l_align l) in
+  g_size g - k_footer k <=
+    2 * N.max (2 * (cur_layout_size k b - k_footer k)) (N.max (rup (l_size l) al) (k_default k))
+    + 2 * k_overhead k + k_page k.
+Proof. exact policy_chunk_bounded. Qed.
+
+(* any history, any acquirers: if every chunk granted at least doubled the current one, every
+   reachable state's chunk list is a doubling chain *)
+Theorem C18_history_doubling_chain : forall k h b,
+  hist_ok k (grows k) b h -> Chain k b -> Chain k (run k b h).
+Proof. exact growth_chain. Qed.
+
+(* the crate's policy over whole histories: the number of chunks held is logarithmic in the size of
+   the newest chunk, and everything held is at most twice the newest chunk *)
+Theorem C18_arena_growth_logarithmic : forall k h,
+  small_consts k -> crate_run k fresh h ->
+  let b := run k fresh h in
+  match chunks b with
+  | [] => True
+  | c :: r => k_default k * 2 ^ N.of_nat (List.length r) <= c_nswf c /\ total_nswf (chunks b) <= 2 * c_nswf c
+  end.
+Proof. exact crate_growth_logarithmic. Qed.
+
+Theorem C18_actual_consts_small : forall m e, small_consts (actual m e).
+Proof.
+  intros m e.
+  cbv [small_consts actual k_page k_overhead k_default k_calign k_footer
+       actual_page actual_overhead actual_default actual_calign actual_footer]. lia.
+Qed.
+
+Example C18_growth_witness :
+  small_consts k_ex /\ crate_run k_ex fresh h_ex /\
+  map c_nswf (chunks (run k_ex fresh h_ex)) = [8128; 1984; 960; 448].
+Proof. exact crate_run_example. Qed.
+
+Print Assumptions C18_policy_first_candidate_or_nothing.
+Print Assumptions C18_new_chunk_bounded.
+Print Assumptions C18_history_doubling_chain.
+Print Assumptions C18_arena_growth_logarithmic.
+Print Assumptions C18_actual_consts_small.
